@@ -45,6 +45,8 @@ def make_matrix(rng, kind, nmax, weighted=True, nmin=5):
     if kind == 'bip':
         r = rng.randint(3, max(3, nmax - 2))
         c = rng.randint(3, max(3, nmax - 2))
+        if c == r:      # a square matrix is an adjacency unless force_bipartite is passed: keep biadjacency cases rectangular
+            c = r + 1
         E = set()
         for i in range(r):
             E.add((i, rng.randrange(c)))       # no empty row
@@ -277,3 +279,13 @@ def block_case(spec, opts):
     if isinstance(opts.get('labels'), dict):
         o2['labels'] = list(opts['labels']['row']) + list(opts['labels']['col'])
     return s2, o2
+
+
+def gnn_opts(rng, n):
+    """GNNClassifier: fixed feature dimension (3) and three classes so that a fit history keeps compatible shapes."""
+    lab = [-1] * n
+    nodes = rng.sample(range(n), min(n, max(3, n // 2)))
+    for i, v in enumerate(nodes):
+        lab[v] = i % 3
+    return {'seeds': {'all': {'array': lab}}, 'features': [[rng.randint(0, 3) for _ in range(3)] for _ in range(n)],
+            'params': {'random_state': 5}}
